@@ -73,23 +73,35 @@ theorem c43_calls_counted (c : Caller) (e : Env) :
     simp [Caller.step, Caller.drive, Caller.edge]
 
 -- OBLIGATION c43_mock_effects_once : over every history of cycles (any intra-cycle order of wire changes, re-enable position, enable() value, post-edge changes) the mock's outputs and effect log equal the specification: a call executes iff requested and enabled at the edge, its effects (those registered for the sampled argument, on the log before) are appended exactly once, nothing is appended otherwise
-theorem c43_mock_effects_once (f : MockFn) (cs : List MCycle) (s : MState) (hs : s.mock.en = false) :
-    (MState.run f s cs).1.mock.log = (specRun f s.mock.log (s.req, s.arg) cs).1 ∧
-    (MState.run f s cs).2.map MOut.view = (specRun f s.mock.log (s.req, s.arg) cs).2 :=
-  run_spec f cs s hs
+theorem c43_mock_effects_once (F : Nat → MockFn) (cs : List MCycle) (s : MState) (hs : s.mock.en = false) :
+    (MState.run F s cs).1.mock.log = (specRun F s.mock.log (s.req, s.arg) cs).1 ∧
+    (MState.run F s cs).2.map MOut.view = (specRun F s.mock.log (s.req, s.arg) cs).2 :=
+  run_spec F cs s hs
 
 -- OBLIGATION c43_mock_result_same_cycle : in the cycle in which the mocked method runs, the value on adapter.data_in at the edge is the function applied to that cycle's argument and the effects applied before it; the effects applied after the edge are those of that evaluation whatever changes after the edge (freeze)
-theorem c43_mock_result_same_cycle (f : MockFn) (s : MState) (pre post after : List (Bool × Nat)) (men : Bool)
+theorem c43_mock_result_same_cycle (f : MockFn) (s : MState) (pre post after : List (Bool × Nat)) (men : Bool) (x : Nat)
     (hs : s.mock.en = false) :
-    (s.cycle f ⟨pre, men, post, after⟩).2.done = ((lastWire (s.req, s.arg) (pre ++ post)).1 && men) ∧
-    (s.cycle f ⟨pre, men, post, after⟩).2.applied =
+    (s.cycle f ⟨pre, men, post, after, x⟩).2.done = ((lastWire (s.req, s.arg) (pre ++ post)).1 && men) ∧
+    (s.cycle f ⟨pre, men, post, after, x⟩).2.applied =
       (if ((lastWire (s.req, s.arg) (pre ++ post)).1 && men) then
         f.effs s.mock.log (lastWire (s.req, s.arg) (pre ++ post)).2 else []) ∧
     (((lastWire (s.req, s.arg) (pre ++ post)).1 && men) = true →
-      (s.cycle f ⟨pre, men, post, after⟩).2.ret = f.ret s.mock.log (lastWire (s.req, s.arg) (pre ++ post)).2) ∧
-    (s.cycle f ⟨pre, men, post, after⟩).1.mock.log = s.mock.log ++ (s.cycle f ⟨pre, men, post, after⟩).2.applied ∧
-    (s.cycle f ⟨pre, men, post, after⟩).1.mock.en = false :=
-  cycle_facts f s pre post after men hs
+      (s.cycle f ⟨pre, men, post, after, x⟩).2.ret = f.ret s.mock.log (lastWire (s.req, s.arg) (pre ++ post)).2) ∧
+    (s.cycle f ⟨pre, men, post, after, x⟩).1.mock.log = s.mock.log ++ (s.cycle f ⟨pre, men, post, after, x⟩).2.applied ∧
+    (s.cycle f ⟨pre, men, post, after, x⟩).1.mock.en = false :=
+  cycle_facts f s pre post after men x hs
+
+-- OBLIGATION c43_mock_none_is_zero : a mocked function answering None for the call that executes gives the caller the all-zero result in that same cycle, never the value of an earlier evaluation (every history of evaluations before it)
+theorem c43_mock_none_is_zero (r : List Nat → Nat → Option Nat) (ef : List Nat → Nat → List Nat) (s : MState)
+    (pre post after : List (Bool × Nat)) (men : Bool) (x : Nat) (hs : s.mock.en = false)
+    (hrun : ((lastWire (s.req, s.arg) (pre ++ post)).1 && men) = true)
+    (hnone : r s.mock.log (lastWire (s.req, s.arg) (pre ++ post)).2 = none) :
+    (s.cycle (MockFn.ofPy r ef) ⟨pre, men, post, after, x⟩).2.done = true ∧
+    (s.cycle (MockFn.ofPy r ef) ⟨pre, men, post, after, x⟩).2.ret = 0 := by
+  obtain ⟨h1, _, h3, _⟩ := cycle_facts (MockFn.ofPy r ef) s pre post after men x hs
+  refine ⟨by rw [h1, hrun], ?_⟩
+  rw [h3 hrun]
+  simp [MockFn.ofPy, hnone, noneAsZero]
 
 -- OBLIGATION c43_sys_call_value : composition (process inside call/call_try d, design, mock): the call executes iff rdy at the edge and enable(); then the value the process samples is f.ret(effects so far, d + cyc) + val of this very cycle and exactly the effects of that argument are applied
 theorem c43_sys_call_value (f : MockFn) (s : Sys) (i : CycIn) (d : Nat)
@@ -106,9 +118,9 @@ theorem c43_sys_call_value (f : MockFn) (s : Sys) (i : CycIn) (d : Nat)
   sys_step_cmd f s i d hinv hd p0 ps hph hraw
 
 -- OBLIGATION c43_sys_caller : in the composed system the values the process receives are those of `Caller.run` against the environment (method ran, adapter.data_out) the system produced, so the caller theorems apply to it (every input history)
-theorem c43_sys_caller (f : MockFn) (is : List CycIn) (s : Sys) :
-    (Caller.run s.caller ((Sys.run f s is).map SysOut.env)).map (·.evt) = (Sys.run f s is).map (·.evt) :=
-  sys_caller f is s
+theorem c43_sys_caller (F : Nat → MockFn) (is : List CycIn) (s : Sys) :
+    (Caller.run s.caller ((Sys.run F s is).map SysOut.env)).map (·.evt) = (Sys.run F s is).map (·.evt) :=
+  sys_caller F is s
 
 -- OBLIGATION c43_trig_attempts : multi-call CallTrigger — in every cycle in which the trigger is awaited every method it calls is attempted exactly once (its adapter is enabled, and it executes iff granted in that cycle); a method it does not call is enabled only by other agents
 theorem c43_trig_attempts (es : List Entry) (mode : Mode) (rest : List TCmd) (e : TEnv) (m : Nat) :
@@ -177,9 +189,9 @@ example :
 example :
     let f : MockFn := { ret := fun log a => (a + log.length) % 64, effs := fun _ a => [a] }
     let ph (r : Bool) : List Phase := [⟨r, none⟩, ⟨r, none⟩, ⟨r, none⟩]
-    (Sys.run f (Sys.init 6 [.tick, .call 5, .try_ 3, .try_ 4])
-        [⟨ph false, 0, true, 0⟩, ⟨ph false, 0, true, 1⟩, ⟨ph true, 1, true, 2⟩, ⟨ph true, 2, false, 3⟩,
-         ⟨ph true, 0, true, 4⟩]).map (fun o => (o.done, o.applied, o.evt)) =
+    (Sys.run (fun _ => f) (Sys.init 6 [.tick, .call 5, .try_ 3, .try_ 4])
+        [⟨ph false, 0, true, 0, 0⟩, ⟨ph false, 0, true, 1, 0⟩, ⟨ph true, 1, true, 2, 0⟩, ⟨ph true, 2, false, 3, 0⟩,
+         ⟨ph true, 0, true, 4, 0⟩]).map (fun o => (o.done, o.applied, o.evt)) =
       [(false, [], none), (false, [], none), (true, [7], some (.called 9)), (false, [], some (.tried none)),
        (true, [8], some (.tried (some 13)))] := by
   decide
@@ -193,6 +205,7 @@ end TxV.Testbench
 #print axioms TxV.Testbench.c43_calls_counted
 #print axioms TxV.Testbench.c43_mock_effects_once
 #print axioms TxV.Testbench.c43_mock_result_same_cycle
+#print axioms TxV.Testbench.c43_mock_none_is_zero
 #print axioms TxV.Testbench.c43_sys_call_value
 #print axioms TxV.Testbench.c43_sys_caller
 #print axioms TxV.Testbench.c43_trig_attempts
